@@ -211,8 +211,9 @@ def dseq_check(case):
     ntr = 0
     ranges = [r for r in RANGES if not (fam == "NP2" and r[1] is None)]
     seq = [(r, FSS[i % 2] if stream == "ap" else FSS[2 + i % 2], NSS[i % len(NSS)]) for i, r in enumerate(ranges + ranges[::-1] + ranges[1::2])]
-    for (vr, mi), fs, ns in seq:
-        items = synth.meta_items(kind, sites, ns, stream=stream, fs=fs, gains=gains, vrange=vr, maxint=mi)
+    for si, ((vr, mi), fs, ns) in enumerate(seq):
+        # every other file lists more channels in its IMRO table than it saves (the first channels only were saved)
+        items = synth.meta_items(kind, sites, ns, stream=stream, fs=fs, gains=gains, vrange=vr, maxint=mi, imro_entries=(k + 7 if si % 2 else None))
         fmeta = os.path.join(d, "seq_g0_t0.imec0.%s.meta" % stream)
         with open(fmeta, "w") as f:
             f.write(synth.meta_text(items))
